@@ -42,6 +42,28 @@ extern crate rust_i18n;
 
 rust_i18n::i18n!("./locales", fallback = "en");
 
+/// verif hook (add-only): records the file-id order handed to `LuaCompilation::update_index`.
+#[cfg(emmyluals_emmylua_analyzer_rust_verif)]
+pub mod verif_c11 {
+    use std::sync::Mutex;
+
+    static UPDATE_ORDERS: Mutex<Vec<Vec<u32>>> = Mutex::new(Vec::new());
+
+    pub(crate) fn record_update_order(file_ids: &[crate::FileId]) {
+        if let Ok(mut orders) = UPDATE_ORDERS.lock() {
+            orders.push(file_ids.iter().map(|f| f.id).collect());
+        }
+    }
+
+    /// returns and clears the orders recorded so far (one entry per `update_index` call)
+    pub fn take_update_orders() -> Vec<Vec<u32>> {
+        match UPDATE_ORDERS.lock() {
+            Ok(mut orders) => std::mem::take(&mut *orders),
+            Err(_) => Vec::new(),
+        }
+    }
+}
+
 pub fn set_locale(locale: &str) {
     rust_i18n::set_locale(locale);
 }
